@@ -98,7 +98,7 @@ func c20Ctor(r *core.Run, fn *ssa.Function, open ssa.CallInstruction) {
 		p, d  ssa.Value
 		rej   int
 		inner *ssa.Function
-		whole bool // the test covers the whole list by itself (library call), no loop to reason about
+		whole bool      // the test covers the whole list by itself (library call), no loop to reason about
 		pArg  ssa.Value // the path operand as written in the test call (a captured variable's load inside a closure)
 	}
 	var guards []guard
